@@ -4,9 +4,14 @@
 use crate::k;
 use crate::spec::TMAX;
 
+/// storage is padded to 16 bytes so that `Tok` has no padding bytes: CBMC 6.11 mis-reads
+/// `toks[i].b[j]` for a symbolic `i` when the element type has trailing padding (found when a
+/// solver counterexample of the reference model did not replay; see DESIGN 2.6)
+pub const TSTORE: usize = 16;
 #[derive(Clone, Copy)]
+#[repr(C)]
 pub struct Tok {
-    pub b: [u8; TMAX],
+    pub b: [u8; TSTORE],
     pub n: usize,
 }
 
@@ -15,7 +20,7 @@ impl Tok {
         &self.b[..self.n]
     }
     pub const fn lit(s: &[u8]) -> Tok {
-        let mut b = [0u8; TMAX];
+        let mut b = [0u8; TSTORE];
         let mut i = 0;
         while i < s.len() {
             b[i] = s[i];
@@ -25,9 +30,19 @@ impl Tok {
     }
 }
 
+fn store(a: [u8; TMAX]) -> [u8; TSTORE] {
+    let mut b = [0u8; TSTORE];
+    let mut i = 0;
+    while i < TMAX {
+        b[i] = a[i];
+        i += 1;
+    }
+    b
+}
+
 /// any subtag of 0..=9 arbitrary bytes
 pub fn tok9() -> Tok {
-    let b: [u8; TMAX] = k::bytes();
+    let b = store(k::bytes());
     let n = k::usize();
     k::assume(n <= TMAX);
     Tok { b, n }
@@ -35,13 +50,13 @@ pub fn tok9() -> Tok {
 
 /// any subtag of exactly `n` arbitrary bytes (length-profiled position, DESIGN 2.5)
 pub fn tok_len(n: usize) -> Tok {
-    let b: [u8; TMAX] = k::bytes();
+    let b = store(k::bytes());
     Tok { b, n }
 }
 
 /// any subtag whose length lies in lo..=hi
 pub fn tok_range(lo: usize, hi: usize) -> Tok {
-    let b: [u8; TMAX] = k::bytes();
+    let b = store(k::bytes());
     let n = k::usize();
     k::assume(n >= lo && n <= hi);
     Tok { b, n }
